@@ -76,14 +76,15 @@ def do_run(name, tier, props):
     d = os.path.join(SEEDED, name)
     meta = json.load(open(os.path.join(d, "meta.json")))
     props = props or [meta["property"]]
-    if sh("git -C /repo status --porcelain").stdout.strip():
-        raise SystemExit("/repo not clean")
-    sh("git -C /repo apply %s" % os.path.join(d, "patch.diff"), check=True)
+    # the change is applied to a scratch worktree of /repo's HEAD (never to /repo itself); the checks are pointed at it
+    wt = "/tmp/seedwt_%s_%d" % (name, os.getpid())
+    sh("git -C /repo worktree add -q --detach %s HEAD" % wt, check=True)
+    sh("git -C %s apply %s" % (wt, os.path.join(d, "patch.diff")), check=True)
     out = {}
     try:
         for p in props:
             t0 = time.time()
-            r = sh("./check %s %s" % (p, tier), cwd=ROOT, timeout=7200)
+            r = sh("VERIF_REPO=%s ./check %s %s" % (wt, p, tier), cwd=ROOT, timeout=7200)
             viol = [l for l in r.stdout.splitlines() if l.startswith("VIOLATION")]
             out[p] = {"rc": r.returncode, "violations": len(viol), "wall_s": round(time.time() - t0)}
             print("%s on %s %s: rc=%d, %d VIOLATION lines, %.0fs" % (name, p, tier, r.returncode, len(viol), time.time() - t0))
@@ -93,9 +94,7 @@ def do_run(name, tier, props):
                 txt = [l for l in r.stderr.splitlines() if "violation:" in l]
                 print("   e.g.", (txt[0] if txt else "")[:300])
     finally:
-        sh("git -C /repo apply -R %s" % os.path.join(d, "patch.diff"), check=True)
-        if sh("git -C /repo status --porcelain").stdout.strip():
-            print("WARNING: /repo not clean after undo")
+        sh("git -C /repo worktree remove --force %s" % wt)
     meta.setdefault("detected_by", {})
     for p, v in out.items():
         meta["detected_by"]["%s/%s" % (p, tier)] = v
